@@ -123,6 +123,92 @@ where
     check::<S>(vk, &[comm], z, &[value], proof, &mut sp, 1)
 }
 
+/// Adaptive forgery against the column spot check (univariate Ligero, default parameters, ~2100..2600 coefficients so
+/// that the codeword has 2048 positions but only t = 191 are opened). The forged opening is consistent with
+/// q = p + e where e vanishes on the first 256 points of the Reed-Solomon domain, so the encoded rows of p and q
+/// agree on positions 0..255 and differ almost everywhere else. The positions are NOT taken from the harness's model of
+/// the verifier: the library verifier is run once on a draft proof over a recording sponge and the positions are
+/// read off its squeezed bytes (Fiat-Shamir challenges are public), then the final proof answers exactly those
+/// positions with p's authentic columns and paths. A verifier that samples positions over the whole codeword rejects.
+pub fn window_forgery(ctx: &mut Ctx, rng: &mut ChaCha20Rng) {
+    type S = UniLigeroS;
+    type L = UniLigeroEnc;
+    let deg = range(rng, 2110, 2600);
+    let cfg = Cfg { max_degree: deg, num_vars: None, supported_degree: deg, supported_hiding: 0, enforced: None };
+    let pp = match attempt(|| PcOf::<S>::setup(cfg.max_degree, None, rng)) {
+        Ok(p) => p,
+        Err(_) => return ctx.skipped("baseline", "setup refused"),
+    };
+    let w = World::<S> { cfg: cfg.clone(), pp: pp.clone(), ck: pp.clone(), vk: pp };
+    let p: LPoly<S> = LabeledPolynomial::new("p".into(), S::gen_poly(&cfg, Shape::Full, deg, rng), None, None);
+    let cp = match commit::<S>(&w.ck, std::slice::from_ref(&p), 2) {
+        Ok(c) => c,
+        Err(_) => return ctx.skipped("baseline", "commit refused"),
+    };
+    let (cm, st): (MLinCommitment, MLinState<F>) = match (convert(cp.comms[0].commitment()), convert(&cp.states[0])) {
+        (Ok(a), Ok(b)) => (a, b),
+        _ => return ctx.skipped("baseline", "mirror decode failed"),
+    };
+    let (n_rows, n_cols, n_ext) = (cm.metadata.n_rows, cm.metadata.n_cols, cm.metadata.n_ext_cols);
+    let t = verif_calculate_t::<F>(w.ck.sec_param(), w.ck.distance(), n_ext).unwrap_or(0);
+    let desc = json!({"degree": deg, "n_rows": n_rows, "n_cols": n_cols, "n_ext_cols": n_ext, "t": t});
+    if n_cols <= 257 || !n_ext.is_power_of_two() || t >= n_ext {
+        return ctx.skipped("positions-outside-a-window-never-opened", "shape leaves no room for the construction");
+    }
+    let z = S::gen_point(&cfg, rng);
+    let truth = p.evaluate(&z);
+    let pre = b"c03-window".to_vec();
+    let c = Ctxt::<S> { ck: &w.ck, cm: cm.clone(), tree: tree_of(&st.leaves), st, z: z.clone(), pre: pre.clone() };
+    // e(X) = prod_{j<256} (X - w^j)
+    let omega = <F as ark_ff::FftField>::get_root_of_unity(n_ext as u64).unwrap();
+    let mut e = vec![F::one()];
+    let mut x = F::one();
+    for _ in 0..256 {
+        let mut nxt = vec![F::zero(); e.len() + 1];
+        for (i, cf) in e.iter().enumerate() {
+            nxt[i + 1] += *cf;
+            nxt[i] -= *cf * x;
+        }
+        e = nxt;
+        x *= omega;
+    }
+    let mut mq = c.st.mat.entries.clone();
+    let row = below(rng, n_rows);
+    let scale = F::rand(rng) + F::one();
+    for (i, cf) in e.iter().enumerate() {
+        mq[row][i] += scale * cf;
+    }
+    let (a, b) = L::tensor(&z, n_cols, n_rows);
+    let vq = row_mul(&mq, &b);
+    let claim = crate::oracle::inner(&vq, &a);
+    let (r, _) = transcript::<S, L>(&c, None, &vq, true);
+    let wfq = r.as_ref().map(|r| row_mul(&mq, r));
+    // draft: positions from the harness model (any t positions of the right shape will do)
+    let (_, idx0) = transcript::<S, L>(&c, wfq.as_ref(), &vq, false);
+    let (cols0, paths0) = cols_paths(&c.st, &c.tree, &idx0);
+    let draft = match to_proof::<S>(MLinProof { opening: MProofSingle { paths: paths0, v: vq.clone(), columns: cols0 }, well_formedness: wfq.clone() }) {
+        Ok(p) => p,
+        Err(_) => return ctx.skipped("positions-outside-a-window-never-opened", "draft proof could not be encoded"),
+    };
+    let mut sp = crate::probe::sponge::<F>(&pre);
+    let _ = check::<S>(&w.vk, &[&cp.comms[0]], &z, &[claim], &draft, &mut sp, 2);
+    let observed: Vec<usize> = sp.squeezed_bytes().iter().map(|bs| bs.iter().fold(0usize, |acc, x| (acc << 8) + *x as usize) % n_ext).collect();
+    if observed.len() != t {
+        return ctx.skipped("positions-outside-a-window-never-opened", "the verifier did not reach its position sampling on the draft");
+    }
+    ctx.count(if observed.iter().all(|j| *j < 256) { "observed-positions:all-below-256" } else { "observed-positions:spread-over-the-codeword" }, 1);
+    let (cols, paths) = cols_paths(&c.st, &c.tree, &observed);
+    let pf = match to_proof::<S>(MLinProof { opening: MProofSingle { paths, v: vq, columns: cols }, well_formedness: wfq }) {
+        Ok(p) => p,
+        Err(_) => return ctx.skipped("positions-outside-a-window-never-opened", "proof could not be encoded"),
+    };
+    if claim == truth {
+        return ctx.skipped("positions-outside-a-window-never-opened", "claimed value equals the true evaluation");
+    }
+    let o = run_check::<S>(&w.vk, &cp.comms[0], &pre, &z, claim, &pf);
+    ctx.check(!o.is_accept(), "positions-outside-a-window-never-opened", "check", desc, || json!({"outcome": o.json(), "max_observed_position": observed.iter().max()}));
+}
+
 pub fn case<S, L>(ctx: &mut Ctx, rng: &mut ChaCha20Rng)
 where
     S: Scheme<F = F>,
